@@ -292,32 +292,43 @@ def parseGTok (tok : String) : Option GTok :=
 def lastReader (rs : List GroupHist.Reader) (m : Nat) : Option (Nat × GroupHist.Reader) :=
   (rs.zipIdx.filter (fun x => x.1.m == m)).getLast?.map (fun x => (x.2, x.1))
 
-/-- acceptance by `GroupHist.gstep false`; the observed start positions and delivered offsets must be the model's -/
-def gAccept : GroupHist.G → List GTok → Nat → Option (Nat × String)
-  | _, [], _ => none
-  | s, t :: ts, i =>
+/-- acceptance by `GroupHist.gstep false`; the observed start positions and delivered offsets must be the model's.
+An epoch is created when the coordinator answers the member's OffsetFetch (`assign`) and becomes the member's active
+epoch when its Reader subscribes (`sub`); until then deliveries still belong to the member's previous epoch.
+`act`/`pend` map a member to the index of its active / created-but-not-yet-subscribed epoch. -/
+def gAccept : GroupHist.G → List (Nat × Nat) → List (Nat × Nat) → List GTok → Nat → Option (Nat × String)
+  | _, _, _, [], _ => none
+  | s, act, pend, t :: ts, i =>
     match t with
     | .produce => match GroupHist.gstep false s .produce with
-      | some s' => gAccept s' ts (i + 1) | none => some (i, "produce")
+      | some s' => gAccept s' act pend ts (i + 1) | none => some (i, "produce")
     | .assign m st => match GroupHist.gstep false s (.assign m) with
       | some s' =>
         (match s'.readers.getLast? with
-         | some rd => if rd.start == st then gAccept s' ts (i + 1) else some (i, s!"assign-start model={rd.start}")
+         | some rd =>
+           if rd.start == st then gAccept s' act ((m, s'.readers.length - 1) :: pend.filter (·.1 != m)) ts (i + 1)
+           else some (i, s!"assign-start model={rd.start}")
          | none => some (i, "assign"))
       | none => some (i, "assign")
-    | .sub _ _ => gAccept s ts (i + 1)
+    | .sub m _ =>
+      match pend.lookup m with
+      | some idx => gAccept s ((m, idx) :: act.filter (·.1 != m)) (pend.filter (·.1 != m)) ts (i + 1)
+      | none => gAccept s act pend ts (i + 1)
     | .deliver m off =>
-      match lastReader s.readers m with
-      | some (idx, rd) =>
-        if rd.pos == off then
-          match GroupHist.gstep false s (.deliver idx) with
-          | some s' => gAccept s' ts (i + 1)
-          | none => some (i, "deliver-beyond-log")
-        else some (i, s!"deliver-position model={rd.pos}")
-      | none => some (i, "deliver-without-assignment")
+      match act.lookup m with
+      | some idx =>
+        match s.readers[idx]? with
+        | some rd =>
+          if rd.pos == off then
+            match GroupHist.gstep false s (.deliver idx) with
+            | some s' => gAccept s' act pend ts (i + 1)
+            | none => some (i, "deliver-beyond-log")
+          else some (i, s!"deliver-position model={rd.pos}")
+        | none => some (i, "deliver-without-assignment")
+      | none => some (i, "deliver-without-subscription")
     | .commit m o ack =>
       match GroupHist.gstep false s (.commit m o ack) with
-      | some s' => gAccept s' ts (i + 1)
+      | some s' => gAccept s' act pend ts (i + 1)
       | none => some (i, "commit-beyond-delivered-to-member")
 
 def gscan (f : List GTok → GTok → Option String) : List GTok → List GTok → Nat → Option String
@@ -368,7 +379,7 @@ def opGTrace (evs : String) : String :=
   let toks := evs.splitOn ";"
   match toks.mapM parseGTok with
   | some es =>
-    let acc := match gAccept {} es 0 with
+    let acc := match gAccept {} [] [] es 0 with
       | none => "ok"
       | some (i, why) => s!"reject@{i}:{why}"
     let ms := [monCovered es, monResume es, monNoGap es].filterMap id
